@@ -386,6 +386,8 @@ def run_split_impl(c):
     import numpy as np
     import opfython.stream.splitter as sp
     X = np.asarray(c["X"], dtype=float).reshape(len(c["X"]), len(c["X"][0]))
+    if c.get("dtype"):
+        X = X.astype(c["dtype"])         # whole-number features held in a narrow type (pixels, counts): values unchanged
     Y = np.asarray(c["Y"], dtype=int)
     X0, Y0 = X.copy(), Y.copy()
 
@@ -599,6 +601,13 @@ def _main_body(rep, rng, tier):
     n_split = 300 if quick else 2500
     scases = [gen_split_case(rng, 60 if quick else 200) for _ in range(n_split)]
     scases += [gen_split_case(rng, 0, near=pr) for pr in (NEAR_INTEGER[:12] if quick else NEAR_INTEGER)]
+    # whole-number features in narrow types with more rows than the type can count (uint8: 256, int8: 128, float16: 2048
+    # exactly representable integers): the row indices handed back are positions, whatever the feature dtype
+    for dt_, n_ in (("uint8", 300), ("int8", 140), ("uint8", 257), ("int16", 90)) + ((("float16", 2100),) if not quick else ()):
+        c_ = gen_split_case(rng, 0, near=(n_, rng.choice([0.5, 0.3, 0.7])))
+        c_["X"] = [[float(rng.randint(0, 100)), float(rng.randint(0, 100))] for _ in range(n_)]
+        c_["dtype"] = dt_; c_["mode"] = "narrow_dtype"
+        scases.append(c_)
     sterms, sexpect, sres = [], [], []
     sstats = dict(n={}, percentages={}, modes={}, halt_zero=0, halt_all=0, halt_float_vs_exact_floor_differs=0)
     for c in scases:
